@@ -84,6 +84,9 @@ func Load(dir string, env []string, tags string) (*Prog, error) {
 			}
 		}
 	}
+	for _, note := range detectReceiverFlips(pkgs) {
+		renames = append(renames, Renaming{Kind: "receiver", To: note})
+	}
 	p := &Prog{Dir: dir, Pkgs: map[string]*packages.Package{}, SPkgs: map[string]*ssa.Package{}, Renames: renames}
 	var errs []string
 	for _, pk := range pkgs {
@@ -207,6 +210,14 @@ func (p *Prog) Func(pkg, name string) *ssa.Function {
 			T = types.NewPointer(T)
 		}
 		sel := p.SSA.MethodSets.MethodSet(T).Lookup(sp.Pkg, parts[1])
+		if sel == nil {
+			// the receiver kind may have changed (value ↔ pointer)
+			if pt, isPtr := T.(*types.Pointer); isPtr {
+				sel = p.SSA.MethodSets.MethodSet(pt.Elem()).Lookup(sp.Pkg, parts[1])
+			} else {
+				sel = p.SSA.MethodSets.MethodSet(types.NewPointer(T)).Lookup(sp.Pkg, parts[1])
+			}
+		}
 		if sel == nil {
 			return nil
 		}
